@@ -204,11 +204,11 @@ func checkSharedStateSharedLock(c *Ctx, rule string, scope []string, min int) {
 					}
 					switch t := st.Field(i).Type().Underlying().(type) {
 					case *types.Map, *types.Chan, *types.Slice:
-						shared = append(shared, st.Field(i).Name())
+						shared = append(shared, fieldNameOf(st.Field(i)))
 						from = src
 					case *types.Pointer:
 						if _, isSt := t.Elem().Underlying().(*types.Struct); isSt {
-							shared = append(shared, st.Field(i).Name())
+							shared = append(shared, fieldNameOf(st.Field(i)))
 							from = src
 						}
 					}
@@ -220,11 +220,11 @@ func checkSharedStateSharedLock(c *Ctx, rule string, scope []string, min int) {
 				n++
 				ok2, detail := false, ""
 				if !mPtr {
-					detail = "the mutex field " + st.Field(mIdx).Name() + " is a value: the new handle gets its own lock while sharing " + strings.Join(shared, ",")
+					detail = "the mutex field " + fieldNameOf(st.Field(mIdx)) + " is a value: the new handle gets its own lock while sharing " + strings.Join(shared, ",")
 				} else if mv, has := stored[mIdx]; !has {
-					detail = "the new handle's " + st.Field(mIdx).Name() + " is not initialised from the source"
+					detail = "the new handle's " + fieldNameOf(st.Field(mIdx)) + " is not initialised from the source"
 				} else if src, f, ok := srcOf(mv); !ok || f != mIdx || src != from {
-					detail = "the new handle's " + st.Field(mIdx).Name() + " is " + T(mv).String() + ", not the source's lock"
+					detail = "the new handle's " + fieldNameOf(st.Field(mIdx)) + " is " + T(mv).String() + ", not the source's lock"
 				} else {
 					ok2 = true
 				}
@@ -288,7 +288,7 @@ func sharedRefFields(p *Program, scope []string) map[string]map[string]bool {
 							if out[owner] == nil {
 								out[owner] = map[string]bool{}
 							}
-							out[owner][st.Field(fa.Field).Name()] = true
+							out[owner][fieldNameOf(st.Field(fa.Field))] = true
 						}
 					}
 				}
@@ -324,7 +324,7 @@ func checkSharedRefNotRepointed(c *Ctx, rule string, scope []string, min int) {
 							continue
 						}
 						o, s := ownerOfFieldBase(fa.X.Type())
-						if o != owner || s == nil || s.Field(fa.Field).Name() != f {
+						if o != owner || s == nil || fieldNameOf(s.Field(fa.Field)) != f {
 							continue
 						}
 						if _, fresh := fa.X.(*ssa.Alloc); fresh {
@@ -350,7 +350,7 @@ func derivedFromField(v ssa.Value, owner, field string, depth int) bool {
 	case *ssa.UnOp:
 		if fa, ok := x.X.(*ssa.FieldAddr); ok {
 			o, st := ownerOfFieldBase(fa.X.Type())
-			return o == owner && st != nil && st.Field(fa.Field).Name() == field
+			return o == owner && st != nil && fieldNameOf(st.Field(fa.Field)) == field
 		}
 		if al, ok := x.X.(*ssa.Alloc); ok {
 			if sv := reachingStore(al, x); sv != nil {
